@@ -722,6 +722,7 @@ PROPS = {
                 "deserializer failing at read k; (sign, digits) pairs with invalid / inconsistent signs; several values on one tape); "
                 "distinct = distinct (exchange kind, length class, parity/top-half-zero, fault kind, hint kind, route)"),
             Job("c17", "std-release", 200_000, 20_000_000, "same plans in the release harness (no debug assertions)"),
+            Job("c17", "nostd-debug", 100_000, 4_000_000, "same plans against the no_std + serde build of the library"),
         ],
         assumptions=[
             "token-level reference model of the documented format (Seq(len) U32* End / Tuple(2) I8 Seq.. End)",
@@ -740,6 +741,7 @@ PROPS = {
                 "non-trivial = a rejection retry, a special-case branch (lbound=0/ubound=0), a documented panic, an RNG error or an enumeration; "
                 "distinct = distinct (API, bit-size class, bound shape class, inclusive?, sign classes, retries)"),
             Job("c18", "std-release", 200_000, 15_000_000, "same plans in the release harness"),
+            Job("c18", "nostd-debug", 100_000, 4_000_000, "same plans against the no_std + rand build of the library"),
         ],
         assumptions=[
             "rng_model: gen_biguint(n) = first ceil(n/32) little-endian words of the stream, top word shifted right by 32 - n%32",
